@@ -50,7 +50,7 @@ impl<T> Vec<T> {
     #[must_use]
     pub fn with_capacity(capacity: usize) -> Self {
         if capacity > crate::verif::vcap() {
-            crate::verif_capacity!("Vec::with_capacity beyond VCAP");
+            crate::verif_capacity!("VERIF-CAPACITY: Vec::with_capacity beyond VCAP");
         }
 
         Self {
@@ -108,7 +108,7 @@ impl<T> Vec<T> {
             self.grow();
 
             if self.len + additional > self.buf.cap {
-                crate::verif_capacity!("Vec::reserve beyond VCAP");
+                crate::verif_capacity!("VERIF-CAPACITY: Vec::reserve beyond VCAP");
             }
         }
     }
@@ -117,7 +117,7 @@ impl<T> Vec<T> {
         let vcap = crate::verif::vcap();
 
         if self.buf.cap >= vcap {
-            crate::verif_capacity!("Vec: more elements than VCAP");
+            crate::verif_capacity!("VERIF-CAPACITY: Vec: more elements than VCAP");
         }
 
         if self.buf.cap == 0 {
@@ -425,7 +425,7 @@ impl<T> Vec<T> {
 #[must_use]
 pub fn from_elem<T: Clone>(elem: T, n: usize) -> Vec<T> {
     if n > crate::verif::vcap() {
-        crate::verif_capacity!("vec![x; n] beyond VCAP");
+        crate::verif_capacity!("VERIF-CAPACITY: vec![x; n] beyond VCAP");
     }
 
     let mut out: Vec<T> = Vec::with_capacity_unchecked(n);
